@@ -13,6 +13,7 @@ import (
 
 	"github.com/skycoin/skycoin/src/cipher"
 	"github.com/skycoin/skycoin/src/coin"
+	"github.com/skycoin/skycoin/src/daemon"
 	"github.com/skycoin/skycoin/src/params"
 	"github.com/skycoin/skycoin/src/visor"
 	"github.com/skycoin/skycoin/src/visor/dbutil"
@@ -27,6 +28,8 @@ import (
 func TestMain(m *testing.M) {
 	// smallest values the configuration accepts, so that size limits are reachable with small transactions
 	params.UserVerifyTxn = params.VerifyTxn{BurnFactor: 10, MaxTransactionSize: 1024, MaxDropletPrecision: 3}
+	mc := daemon.NewMessagesConfig() // the wire messages must be registered before one can be framed (C23 replies)
+	mc.Register()
 	hx.Main(m)
 }
 
@@ -328,8 +331,14 @@ func (w *world) buildTxn(t *rapid.T, m *ref.Model, want string) *txnPlan {
 	}
 	total := coinsIn.Uint64()
 	nOut := rapid.IntRange(1, 4).Draw(t, "nout")
-	if want == "soft:size" {
+	bulky := strings.HasPrefix(want, "hard:") && rapid.IntRange(0, 5).Draw(t, "bulky") == 3
+	if want == "soft:size" || bulky {
+		// (bulky: a transaction that breaks a hard rule and is over the size limit as well - it must still be refused
+		// as hard-invalid, whichever check the node runs first)
 		nOut = 32
+	}
+	if bulky {
+		w.stats["hard_invalid_and_oversized"]++
 	}
 	if uint64(nOut) > total {
 		nOut = int(total)
@@ -405,6 +414,12 @@ func (w *world) buildTxn(t *rapid.T, m *ref.Model, want string) *txnPlan {
 			txn.Out[i].Hours = base + v
 			remH -= v
 		}
+	}
+	// coins sent to the null address are burnt: legal in blocks and for network transactions (only the user rules
+	// of the API refuse them); such an output stays in the unspent set for ever
+	if want != "user:null_address" && len(txn.Out) >= 2 && rapid.IntRange(0, 15).Draw(t, "burn_output") == 7 {
+		txn.Out[rapid.IntRange(0, len(txn.Out)-1).Draw(t, "burn_at")].Address = cipher.Address{}
+		w.stats["txn_with_null_address_output"]++
 	}
 	// make outputs distinct
 	for i := range txn.Out {
